@@ -46,6 +46,11 @@ def ediv(x, d):
     x = z3.simplify(x) if not z3.is_int_value(x) else x
     key = (x.get_id(), d.get_id())
     if key not in _EDIV:
+        for (x1, d1, q1, r1) in EUCLID:  # same dividend and divisor terms as a pair the code created: share the witnesses
+            if x1.eq(x) and d1.eq(d):
+                _EDIV[key] = (q1, r1, x1, d1)
+                break
+    if key not in _EDIV:
         q, r = fresh("sq"), fresh("sr")
         _EDIV[key] = (q, r, x, d)
         EUCLID.append((x, d, q, r))
@@ -938,6 +943,9 @@ class Engine:
             v = st.env.get(m)
             if isinstance(v, (IntV, BoolV)):
                 st.ghost["@" + m] = v.e
+            elif isinstance(v, ListV):
+                st.ghost["@" + m] = v.joined
+        st.ghost["@io"] = st.ghost.get("io", z3.IntVal(0))
 
     def _havoc(self, st: State, s, spec: LoopSpec):
         for m in self._modified_names(s):
@@ -1063,6 +1071,7 @@ class Engine:
                 done.append((cur, None))
             return done
         st.env[iname] = IntV(lo)
+        self._snapshot_entry(st, s)
         self.ob(f"{lname}.init", st, spec.inv(self, st), s, tag="")
         head = st.fork()
         self._havoc(head, s, spec)
@@ -1095,6 +1104,7 @@ class Engine:
         spec, lname = self._loop_spec(s, "For")
         g = f"plen{o}"
         st.ghost[g] = z3.IntVal(0)
+        self._snapshot_entry(st, s)
         self.ob(f"{lname}.init", st, spec.inv(self, st), s, tag="")
         head = st.fork()
         spec2 = LoopSpec(spec.inv, spec.variant, spec.shapes, {**spec.ghost_havoc, g: "int"}, 0, spec.ghost_step)
@@ -1178,6 +1188,17 @@ def find_function(repo, relpath, qualname):
             raise Unsupported(f"{relpath}:{qualname} not found")
         body = node.body
     return node, ast.get_source_segment(src, node)
+
+
+def stmt_ordinal(fn_node, pred):
+    """ordinal (as used for ghost_asserts) of the first statement of fn_node satisfying pred"""
+    c = 0
+    for n in ast.walk(fn_node):
+        if isinstance(n, ast.stmt):
+            if pred(n):
+                return c
+            c += 1
+    return None
 
 
 def find_module_constant(repo, relpath, name):
